@@ -101,9 +101,42 @@ def one_shot(binary, prop, mode, case_path, scratch, extra=None, budget_ms=None)
         env.update(extra)
     p = run_worker(binary, env)
     so, se = p.communicate()
-    if p.returncode != 0 or not os.path.exists(out):
+    if not os.path.exists(out) or p.returncode not in (0, 1):
         return None, (so or "") + (se or "")
     return json.load(open(out)), se
+
+
+def classify_stall(text):
+    """Decides whether a watchdog dump shows a genuine self-deadlock of the code
+    under test (DESIGN 2.8): some bubble goroutine waits for a sync mutex from
+    code under test, nothing is runnable, and no goroutine is parked by the
+    simulator below frames of the code under test (which could be the holder).
+    Returns a description or None."""
+    blocks = [b for b in text.split("\n\n") if b.startswith("goroutine ")]
+    victims = []
+    for b in blocks:
+        head = b.split("\n", 1)[0]
+        if "synctest bubble" not in head:
+            continue
+        under_test = [l.strip() for l in b.split("\n") if "asyncmachine-go/pkg/" in l and not l.startswith("\t") and "pkg/x/simhook" not in l]
+        if re.search(r"\[(running|runnable)", head):
+            return None
+        if re.search(r"\[sync\.(RW)?Mutex\.(R)?Lock", head) or "[semacquire" in head:
+            if under_test:
+                victims.append(under_test)
+            else:
+                return None  # the harness itself waits for a mutex
+            continue
+        parked_by_sim = "verifsim/core.(*Sim).Yield" in b
+        if parked_by_sim and under_test:
+            return None  # parked inside the code under test: may hold the lock
+    if not victims:
+        return None
+    names = []
+    for f in victims[0][:4]:
+        fn = f.rsplit("(", 1)[0].split("asyncmachine-go/")[-1]
+        names.append(fn.replace("(*", "").replace(")", ""))
+    return " <- ".join(names) if names else "?"
 
 
 def check(args):
@@ -150,10 +183,12 @@ def search(prop, family, meta, tier, seed, workers, budget, binary, scratch, t0,
     trouble = []
     crashes = []
     salvaged = []
+    stalls = []
     for i, p, env in procs:
         so, se = p.communicate()
         outp = env["VERIF_OUT"]
-        if p.returncode == 0 and os.path.exists(outp):
+        # (a -race binary exits 1 when the detector reported anything)
+        if (p.returncode == 0 or (race and p.returncode == 1)) and os.path.exists(outp):
             o = json.load(open(outp))
             o["_stderr"] = se
             outs.append(o)
@@ -178,10 +213,18 @@ def search(prop, family, meta, tier, seed, workers, budget, binary, scratch, t0,
                 shutil.copyfile(env["VERIF_STALLFILE"], dst)
             except OSError:
                 open(dst, "w").write(se or "")
-            trouble.append("worker %d stalled at seed %s (stack dump: %s)" % (i, cur, dst))
+            desc = None
+            try:
+                desc = classify_stall(open(dst).read())
+            except OSError:
+                pass
+            if desc and meta.get("deadlock_is_violation"):
+                stalls.append((cur, desc, dst))
+            else:
+                trouble.append("worker %d stalled at seed %s (stack dump: %s)" % (i, cur, dst))
         else:
             crashes.append((cur, (se or "")[-6000:], p.returncode))
-    if not outs and not crashes and not salvaged:
+    if not outs and not crashes and not salvaged and not stalls:
         for t in trouble:
             log("HARNESS:", t)
         return 2
@@ -252,6 +295,19 @@ def search(prop, family, meta, tier, seed, workers, budget, binary, scratch, t0,
         else:
             harness.append("worker died (exit %s) at seed %s but the seed alone passes:\n%s" % (code, cur, se))
 
+    # self-deadlocks (a mutex wait never ends, so the run cannot report itself)
+    for cur, desc, dst in stalls:
+        cls = "%s/self-deadlock/%s" % (prop, desc.split(" <- ")[0])
+        what = "a call blocks for ever on a mutex: %s (stack dump %s)" % (desc, dst)
+        fail_counts[cls] = fail_counts.get(cls, 0) + 1
+        if cls in known_keys:
+            known_hit[cls] = what
+        elif not any(v[0] == cls for v in violations):
+            path = os.path.join(replay_dir, "%s-%s-%d.json" % (prop, sanitize("self-deadlock-" + desc.split(" <- ")[0]), cur))
+            json.dump({"property": prop, "family": family, "tier": tier, "seed": cur, "mode": "seed",
+                       "class": cls, "message": what, "expect": "stall"}, open(path, "w"), indent=1)
+            violations.append((cls, path, what))
+
     # one representative per class: the one with the shortest tapes
     by_class = {}
     for f in failures:
@@ -260,6 +316,45 @@ def search(prop, family, meta, tier, seed, workers, budget, binary, scratch, t0,
         if c not in by_class or k < by_class[c][0]:
             by_class[c] = (k, f)
     shrink_budget = meta.get("shrink_s", 20 if tier == "quick" else 60)
+    if race:
+        # The detector reports a pair of stacks once per process, so neither
+        # in-process shrinking nor class equality across processes is
+        # meaningful: every candidate is replayed as it is in a fresh process
+        # and all the races that run shows are taken from there.
+        confirmed = {}
+        for cls in sorted(by_class)[:16]:
+            f = by_class[cls][1]
+            if cls.startswith("harness/"):
+                harness.append("%s at seed %s: %s" % (cls, f["seed"], f["message"][:3000]))
+                continue
+            case_path = os.path.join(scratch, "case-%d.json" % f["seed"])
+            json.dump(f, open(case_path, "w"))
+            res2, err2 = one_shot(binary, family, "replay", case_path, scratch,
+                                  extra={"GORACE": "halt_on_error=0 log_path=%s" % os.path.join(scratch, "race-replay-%d" % f["seed"])})
+            if res2 is None:
+                harness.append("replay of %s crashed: %s" % (cls, (err2 or "")[-2000:]))
+                continue
+            rep = res2["case"]
+            if rep["class"].startswith("harness/"):
+                harness.append("%s at seed %s: %s" % (rep["class"], f["seed"], rep["message"][:3000]))
+                continue
+            if not rep.get("all_classes"):
+                harness.append("race %s of seed %s did not show up when replayed alone" % (cls, f["seed"]))
+                continue
+            for c2 in rep["all_classes"]:
+                if c2 not in confirmed:
+                    confirmed[c2] = rep
+        for c2 in sorted(confirmed):
+            rep = dict(confirmed[c2])
+            if c2 in known_keys:
+                known_hit[c2] = c2
+                continue
+            rep["property"], rep["family"], rep["repo"] = prop, family, repo_describe()
+            rep["class"] = rep["all_classes"][0]
+            path = os.path.join(replay_dir, "%s-%s-%d.json" % (prop, sanitize(c2.split("/", 1)[-1]), rep["seed"]))
+            json.dump(rep, open(path, "w"), indent=1)
+            violations.append((c2, path, "data race %s (one of %d in this run)" % (c2, len(rep["all_classes"]))))
+        by_class = {}
     for cls in sorted(by_class):
         f = by_class[cls][1]
         if cls.startswith("harness/"):
